@@ -9,7 +9,8 @@ Decided (symbolic bounded-write analysis E5 on the two conversion engines, all p
   reverse-bound    the filename written fits the documented len(uriString) + 1 - 5 (forms with "file:") / + 1 (others), for
                    the forms the property speaks about;
   entry-modes      the public functions select the direction with constants.
-NOT decided: the round trip as a whole, validity of the first segment of a Windows drive name (copied unescaped)."""
+  raw-copy         only the segment that starts the name is copied without escaping.
+NOT decided: the round trip as a whole, the content of that first segment of a Windows drive name."""
 import itertools
 import re
 
@@ -104,12 +105,22 @@ def forward(ctx, chk, suf, mode, fac):
             out.append(('potential', o.off - Lin.const(PRE) - (l.off + Lin.const(1)).scale(fac)))
         if isinstance(i, Ptr) and isinstance(l, Ptr) and i.base == 'fn' and l.base == 'fn':
             out.append(('separator-behind-scan', l.off + Lin.const(1) - i.off))
+        # while a flag local still has its initial value 1 (the "first segment" flag), no separator has been passed
+        if isinstance(l, Ptr) and l.base == 'fn':
+            for fv in flag_locals:
+                val = st.env.get(fv)
+                if isinstance(val, Lin) and val.is_const() and val.c == 1:
+                    out.append(('first-segment-flag:%s' % fv, l.off + Lin.const(1)))
         return out
+    # flag locals initialised with the constant 1 before the loop
+    flag_locals = sorted(v for v in f.locals if v not in f.param_types and '*' not in (f.locals.get(v) or '')
+                         and any(isinstance(sst.env.get(v), Lin) and sst.env[v].is_const() and sst.env[v].c == 1 for _b, sst in pre.stops))
     se.invariants = inv
     se.decide_le = lambda l, st: prove(se, l, st)
     counter = [0]
     prefixes = []
     escflags = []
+    rawcopies = []
 
     def on_call(se_, i, st, args):
         t = call_target(i)
@@ -120,6 +131,9 @@ def forward(ctx, chk, suf, mode, fac):
                 if lit is not None:
                     prefixes.append((lit, tuple(st.atoms), i.loc))
                     return Lin.const(len(lit))
+            return None
+        if t in ('memcpy', 'memmove') and len(args) > 1 and isinstance(args[1], Ptr) and args[1].base == 'fn':
+            rawcopies.append((args[1].off, i.loc, set(st.facts)))
             return None
         if t == escname:
             inp, inend, out = args[0], args[1], args[2]
@@ -182,6 +196,15 @@ def forward(ctx, chk, suf, mode, fac):
                     '%s: %s at out[%r] (+%r) within %d + 3 * name[%r] + 1' % (name, what, off, n, PRE, I.off) if ok else worst[1], func=name)
     if nstores < 4:
         raise AnalysisBroken('%s: only %d stores seen' % (name, nstores))
+    # characters copied without escaping: only the segment that starts the name (the drive of a Windows name)
+    for off, loc, fs in rawcopies:
+        s2 = PState()
+        s2.facts = fs
+        ok = prove(se, off, s2) is True
+        chk.add('raw-copy', 'raw-copy:%s' % (tag if ok else base_name(name) + ('/unix' if mode else '/windows')), ok, loc,
+                '%s copies name[%r ..] without escaping; %s' % (name, off, 'that is the segment at the start of the name' if ok else
+                                                               'not proved to be the segment at the start of the name: a later segment '
+                                                               '(e.g. the server of a UNC name) reaches the URI unescaped'), func=name)
     # prefix table
     seen = {}
     for lit, atoms, loc in prefixes:
@@ -263,11 +286,12 @@ def reverse(ctx, chk, suf, mode):
         lits = [l for l, t in matched if t]
         form = max(lits, key=len) if lits else None
         copies = [ev for ev in pst.events if ev[0] == 'store-bytes' and ev[1] == 'fnout']
-        stores = [ev for ev in pst.events if ev[0] == 'store' and ev[1] == 'fnout' and isinstance(ev[2], Lin) and ev[2].is_const()
-                  and isinstance(ev[5], Lin) and ev[5].is_const() and ev[5].c == 92]
         if len(copies) != 1:
             continue
         cp = copies[0]
+        before = pst.events[:pst.events.index(cp)]
+        stores = [ev for ev in before if ev[0] == 'store' and ev[1] == 'fnout' and isinstance(ev[2], Lin) and ev[2].is_const()
+                  and isinstance(ev[5], Lin) and ev[5].is_const() and ev[5].c == 92]
         rows.setdefault(form, []).append((cp, stores, pst))
     if not rows:
         raise AnalysisBroken('%s: no path with the copy of the text found' % name)
@@ -326,6 +350,132 @@ def reverse(ctx, chk, suf, mode):
     return nrows, notes
 
 
+class ScanHooks(object):
+    """a pointer that scans a terminated string is advanced only after its current character was tested against 0 (and found
+    different) since the last advance"""
+
+    def __init__(self, f, prog, scanners):
+        self.f, self.prog, self.scanners = f, prog, scanners
+        self.bad = []
+        self.advances = set()
+        # locals that receive the current character of a pointer (`c = p[0]`), for the discovery pass
+        self.holders = {}
+        from ..ir import strip_casts as _sc
+        for b in f.blocks:
+            for i in b.ins:
+                if i.op == 'assign' and i.dst is not None and i.dst.k == 'ref' and '*' not in (i.dst.ty or ''):
+                    pv = self._pointee_of(i.src)
+                    if pv is not None:
+                        self.holders[i.dst.v] = pv
+
+    def _pointee_of(self, e):
+        from ..ir import strip_casts
+        x = strip_casts(e)
+        if x is None:
+            return None
+        t = None
+        if x.k == 'index' and const_value(x.c[1], self.prog) == 0:
+            t = strip_casts(x.c[0])
+        elif x.k == 'un' and x.v == '*':
+            t = strip_casts(x.c[0])
+        if t is not None and t.k == 'ref' and '*' in (self.f.locals.get(t.v) or '') and t.v not in self.f.param_types:
+            return t.v
+        return None
+
+    def _zero_test(self, cond, facts=None):
+        from ..ir import strip_casts
+        c = strip_casts(cond)
+        if c is None or c.k != 'bin' or c.v not in ('==', '!='):
+            return None
+        for a, b in ((c.c[0], c.c[1]), (c.c[1], c.c[0])):
+            if const_value(b, self.prog) != 0:
+                continue
+            x = strip_casts(a)
+            if x is None:
+                continue
+            v = None
+            if x.k == 'index' and const_value(x.c[1], self.prog) == 0:
+                t = strip_casts(x.c[0])
+                v = t.v if t is not None and t.k == 'ref' else None
+            elif x.k == 'un' and x.v == '*':
+                t = strip_casts(x.c[0])
+                v = t.v if t is not None and t.k == 'ref' else None
+            if v in self.scanners:
+                return v, c.v == '=='
+            if x.k == 'ref' and facts is not None:
+                for h in facts:
+                    if h[0] == 'holds' and h[1] == x.v:
+                        return h[2], c.v == '=='
+            if x.k == 'ref' and facts is None and x.v in self.holders:
+                return self.holders[x.v], c.v == '=='
+        return None
+
+    def instr(self, b, idx, i, facts):
+        from ..ir import strip_casts
+        from ..cfgutil import expr_key
+        if i.op == 'assign' and i.dst is not None and i.dst.k == 'ref':
+            v = i.dst.v
+            if v.startswith('%'):
+                s = strip_casts(i.src)
+                facts = frozenset(x for x in facts if not (x[0] == 'copy' and x[1] == v))
+                if s is not None and s.k == 'ref' and s.v in self.scanners:
+                    facts = facts | {('copy', v, s.v)}
+                return facts
+            pv = self._pointee_of(i.src) if '*' not in (i.dst.ty or '') else None
+            facts = frozenset(x for x in facts if not (x[0] == 'holds' and x[1] == v))
+            if pv in self.scanners:
+                return facts | {('holds', v, pv)}
+            if v in self.scanners:
+                sk = expr_key(i.src)
+                srcs = [v] + [x[1] for x in facts if x[0] == 'copy' and x[2] == v]
+                if any(sk in ('(%s + 1)' % q, '%s + 1' % q) for q in srcs):
+                    self.advances.add(str(i.loc))
+                    if ('nonzero', v) not in facts:
+                        self.bad.append((i.loc, v))
+                return frozenset(x for x in facts if not ((x[0] == 'nonzero' and x[1] == v) or (x[0] == 'holds' and x[2] == v)))
+        elif i.op == 'call' and i.dst is not None and i.dst.k == 'ref' and i.dst.v in self.scanners:
+            return frozenset(x for x in facts if not (x[0] == 'nonzero' and x[1] == i.dst.v))
+        return facts
+
+    def edge(self, b, cond, truth, facts):
+        zt = self._zero_test(cond, facts)
+        if zt is not None:
+            v, eq = zt
+            if eq != truth:
+                return facts | {('nonzero', v)}
+        return facts
+
+    def ret(self, b, term, facts):
+        pass
+
+
+def rule_terminator(ctx, chk, name):
+    from ..factflow import explore
+    f = ctx.irp.funcs[name]
+    scanners = set()
+    for b in f.blocks:
+        t = b.term
+        if t[0] == 'br':
+            h = ScanHooks(f, ctx.prog, set(v for v, ty in f.locals.items() if '*' in (ty or '') and v not in f.param_types))
+            zt = h._zero_test(t[1])
+            if zt is not None:
+                scanners.add(zt[0])
+    if not scanners:
+        raise AnalysisBroken('%s: no pointer that scans a terminated string found' % name)
+    h = ScanHooks(f, ctx.prog, scanners)
+    explore(f, h, limit=20000)
+    if not h.advances:
+        raise AnalysisBroken('%s: no advance of a scanning pointer found' % name)
+    if h.bad:
+        loc, v = h.bad[0]
+        chk.bad('terminator', 'terminator:%s' % base_name(name), loc, '%s advances `%s` on a path where its current character has not been '
+                'tested against the terminator since the last advance: for a string that ends there the scan leaves the string' % (name, v),
+                func=name)
+    else:
+        chk.ok('terminator', 'terminator:%s' % name, f.loc, '%d advances of %s, each after a test of the current character' %
+               (len(h.advances), sorted(scanners)), func=name)
+
+
 def run(ctx, chk):
     from .c17 import escape_factor
     chk.explanation = ('Partial. Decided from the source of the two conversion engines, all paths, char and wchar_t, both directions: '
@@ -342,11 +492,15 @@ def run(ctx, chk):
                        '(equality of two string transformations over all names), validity of the unescaped first segment of a Windows drive '
                        'name.')
     chk.rule('forward-bound', 'every store of uriFilenameToUriString ends within the documented prefix constant + 3 * len + 1 characters', floor=40)
+    chk.rule('raw-copy', 'the only text copied into the URI without escaping is the segment that starts the name (drive of a Windows name)',
+             floor=2)
     chk.rule('prefix-table', 'prefix written per kind of name = the documented forms, none longer than the documented constant', floor=4)
     chk.rule('escape-pairing', 'escape without plus / line-break conversion, unescape without plus conversion and URI_BR_DONT_TOUCH', floor=8)
     chk.rule('skip-table', 'characters skipped and copy offset per "file:" form = the documented forms (file:///x, file:///C:/x, file://server/share, '
              'file:/x, file:c:/x)', floor=12)
     chk.rule('reverse-bound', 'characters written by uriUriStringToFilename <= documented buffer for every form the property names', floor=12)
+    chk.rule('terminator', 'a pointer that scans a terminated string (the name, the produced filename) is advanced only after its '
+             'current character was found different from the terminator', floor=4)
     chk.rule('entry-modes', 'each public conversion function calls its engine with the constant of its direction', floor=8)
     stats = {}
     allnotes = []
@@ -363,6 +517,8 @@ def run(ctx, chk):
             nr, notes = reverse(ctx, chk, suf, mode)
             allnotes += notes
             stats['%s/%s' % (suf, 'unix' if mode else 'windows')] = {'forward_stores': ns, 'forward_block_visits': npaths, 'reverse_rows': nr}
+        rule_terminator(ctx, chk, 'uriFilenameToUriString' + suf)
+        rule_terminator(ctx, chk, 'uriUriStringToFilename' + suf)
         for pub, eng, val in (('uriUnixFilenameToUriString', 'uriFilenameToUriString', 1), ('uriWindowsFilenameToUriString', 'uriFilenameToUriString', 0),
                               ('uriUriStringToUnixFilename', 'uriUriStringToFilename', 1), ('uriUriStringToWindowsFilename', 'uriUriStringToFilename', 0)):
             g = ctx.irp.funcs.get(pub + suf)
